@@ -34,7 +34,7 @@ def conflictConvert (k l m n : Nat) : Bool :=
 
 /-- conflict test of `BpSeq.fcfs`; (k,l) = first unpacked region, (m,n) = second -/
 def conflictFcfs (k l m n : Nat) : Bool :=
-  ((decide (k < m) && decide (m < l) && decide (l ≤ n)) || (decide (m < k) && decide (k < n) && decide (n < l)))
+  ((decide (k < m) && decide (m < l) && decide (l < n)) || (decide (m < k) && decide (k < n) && decide (n < l)))
 
 /-- conflict test of `BpSeq.all_dot_brackets`; (k,l) = first unpacked region, (m,n) = second -/
 def conflictAll (k l m n : Nat) : Bool :=
@@ -46,6 +46,12 @@ def objCoeff (length order : Int) : Int :=
 
 /-- max_order = (maximum degree) + maxOrderOffset -/
 def maxOrderOffset : Nat := 1
+
+/-- `BpSeq.fcfs` is declared as a (cached) property -/
+def fcfsIsProperty : Bool := true
+
+/-- the three fall-backs of convert_to_dot_bracket (no solver, PulpSolverError, status not optimal): written as a call `self.fcfs()`? -/
+def fallbackCalls : List Bool := [false, false, false]
 
 def lwNames : List String := ["cWW", "cWH", "cWS", "cHW", "cHH", "cHS", "cSW", "cSH", "cSS",
    "tWW", "tWH", "tWS", "tHW", "tHH", "tHS", "tSW", "tSH", "tSS"]
